@@ -226,6 +226,7 @@ Mk(cls, kind, li, ip, name, args, val, w, pre, grow, recv) ==
 
 PatBytes(k) == [j \in 1 .. k |-> (90 + 13 * j) % 256]
 Elem == 90
+OvBytes(k) == [j \in 1 .. k |-> 65 + (j % 26)]     \* no NUL: a string of exactly k characters
 
 \* ---- scalar / array leaves, field views, arrays
 LeafOps(b, li, ip, inst) ==
@@ -434,6 +435,22 @@ DataOps(b, li, ip, inst, d) ==
                     Mut("d_insert_n", <<pos, 2, Elem>>, <<>>, E(P(D.w), pos, sz + 2 - pos), sz + 2),
                     Mut("d_insert_range", <<pos>>, PatBytes(2), E(P(D.w), pos, sz + 2 - pos), sz + 2),
                     Mut("d_insert_ilist", <<pos>>, PatBytes(2), E(P(D.w), pos, sz + 2 - pos), sz + 2)>>])
+     \* more elements than the length type can count (uint8 lengths: the new size
+     \* wraps in size_type).  Not a call the documentation describes (pre = FALSE),
+     \* so the handler may or may not be invoked - but what such a call is documented
+     \* to write ends beyond any view that cannot hold 256 elements, and a checked
+     \* build must not write there silently.
+     \o (IF lw = 1 /\ sz >= 1
+         THEN LET c == 256 - sz
+                  W(lo) == Whole(E(P(D.w), lo, 256 - lo), 256)
+              IN <<O("d_insert_n", <<sz, c, Elem>>, <<>>, W(sz), FALSE, TRUE),
+                   O("d_insert_n", <<0, c, Elem>>, <<>>, W(0), FALSE, TRUE),
+                   O("d_insert_range", <<sz>>, OvBytes(c), W(sz), FALSE, TRUE),
+                   O("d_insert_range", <<0>>, OvBytes(c), W(0), FALSE, TRUE),
+                   O("d_assign_range", <<>>, OvBytes(256), W(0), FALSE, TRUE),
+                   O("d_assign_it", <<>>, OvBytes(256), W(0), FALSE, TRUE),
+                   O("d_assign_str", <<>>, OvBytes(256), W(0), FALSE, TRUE)>>
+         ELSE <<>>)
 
 \* ---- cursor forms, from the positions the documentation requires
 \* wrapper ids: 0 plain, 1 init, 2 dont_move, 3 init_dont_move, 4 skip
